@@ -1,6 +1,7 @@
 import Driver.Wire
 import RdestModel.Tracker.Resp
 import RdestModel.Tracker.Retry
+import RdestModel.Tracker.Respawn
 import RdestModel.Gen.Constants
 namespace Driver
 open Rdest Rdest.Bencode Rdest.Meta Rdest.Tracker
@@ -40,6 +41,26 @@ def runRetry (joinOnFail : Bool) (cap : Nat) : Nat → Retry.St → Bool → Nat
     | some s' => runRetry joinOnFail cap fuel s' free' (n + 1)
     | none => (s.contacted, free', n)
 
+open Rdest.Tracker.Respawn in
+/-- The scenario of the `respawn` op on the model (`guard = true`): `kills` lost connections with no candidate left,
+    then the only live tracker task fails `goodAt - 1` announces and succeeds; the manager takes every command.
+    Returns (manager free in every state, handle held at the end, tasks still announcing at the end). -/
+def runRespawn (kills goodAt : Nat) : Bool × Bool × Nat :=
+  let cap := Rdest.Gen.CHANNEL_SIZE
+  -- the harness session is not running its loop: no tracker task before the first lost connection
+  let s0 : St := ⟨[], none, [], none, 0⟩
+  let sched : List Label :=
+    List.replicate kills .lost ++
+    (List.replicate (goodAt - 1) [Label.attempt 0 false, .send 0, .recv, .wake 0]).flatten ++
+    [.attempt 0 true, .send 0, .recv, .joined]
+  let rec go : List Label → St → Bool → Bool × Bool × Nat
+    | [], s, free => (free && managerFree s, s.held.isSome, live s)
+    | l :: ls, s, free =>
+      match step true cap s l with
+      | some s' => go ls s' (free && managerFree s)
+      | none => (false, s.held.isSome, 1000 + ls.length)
+  go sched s0 true
+
 def c19 (args res : List String) : Verdict :=
   match args with
   | ["resp", bodyH] =>
@@ -76,6 +97,21 @@ def c19 (args res : List String) : Verdict :=
         else if model.isSome ∧ implOut = "fail" then vProp "T2-well-formed-reply-reported-as-failed-announce" tag
         else if model.isSome ∧ implOut.startsWith "resp" then vProp "T2-peers-differ-from-the-listed-well-formed-entries" tag
         else vDiff "fetch" modelOut tag
+    | _, _ => vBad (joinToks args)
+  | ["respawn", killsS, goodS] =>
+    -- connections lost while a tracker task is retrying; the tracker answers one announce well and fails all others
+    match killsS.toNat?, goodS.toNat? with
+    | some kills, some goodAt =>
+      let tag := s!"respawn-kills{min kills 3}-good-at-{min goodAt 3}"
+      let get (key : String) : String := (res.filterMap fun t => if t.startsWith (key ++ "=") then some ((t.drop (key.length + 1)).toString) else none).headD "?"
+      let (mFree, mHeld, mLive) := runRespawn kills goodAt
+      if kills = 0 ∨ goodAt = 0 then vBad "respawn needs a lost connection and a good announce"
+      else if get "resp" ≠ "y" then vBad ("the loopback tracker's good reply did not arrive: " ++ joinToks res)
+      else if get "manager" = "blocked" then vProp "T6-manager-waits-for-a-tracker-task-that-is-still-retrying" tag
+      else
+        let model := s!"manager={if mFree then "free" else "blocked"} held={if mHeld then "y" else "n"} later={mLive}"
+        let impl := s!"manager={get "manager"} held={get "held"} later={get "later"}"
+        if model = impl then vOk tag else vDiff "respawn" model tag
     | _, _ => vBad (joinToks args)
   | ["e2e", kS, _, nS] =>
     match kS.toNat?, nS.toNat? with
